@@ -23,8 +23,10 @@ Fixpoint esc_loop (fuel : nat) (x mfb : Z) (acc : bytes) : option bytes :=
 Definition utf8esc (x : Z) : option bytes :=
   if x <? 128 then Some [x] else esc_loop 8 x 63 [].
 
-(* utf8.char on one argument: the cast to uint32 happens BEFORE the range check *)
+(* utf8.char on one argument (after e5d4eb9): the range of the integer is checked, then it is narrowed to
+   uint32 and handed to utf8esc (which checks its own bound again) *)
 Definition nl_utf8char (v : Z) : res bytes :=
+  if negb ((0 <=? v) && (v <=? NL_UTF8CHAR_MAX)) then Trap else
   let x := v mod two32 in
   if NL_UTF8ESC_MAX <? x then Trap else
   match utf8esc x with Some b => Val b | None => Unsafe end.
@@ -97,14 +99,15 @@ Definition lua_utf8codepoint (s : bytes) (i : Z) (strict : bool) : lres Z :=
        | Some (code, _) => LVal code
        end.
 
-(* utf8.nelua codepoint: decodes from the START of the string, at most #s times, until p == i.
-   There is no test p < #s: decoding at p = #s reads the terminator, decoding beyond it reads
-   outside the string *)
+(* utf8.nelua codepoint (after 6fefee4): decodes from the START of the string while p <= i; returns at
+   p == i; leaving the loop means i was inside a character: assert(false, 'out of bounds').
+   The model keeps the check "this decode starts outside the string -> Unsafe" to prove it unreachable. *)
 Fixpoint nl_cp_loop (k : nat) (s : bytes) (len i p : Z) (strict : bool) : res Z :=
   match k with
-  | O => Trap                                             (* assert(false, 'out of bounds') *)
+  | O => Trap
   | S k' =>
-      if len <? p then Unsafe
+      if i <? p then Trap                                  (* loop left: assert(false, 'out of bounds') *)
+      else if len <? p then Unsafe
       else match nl_utf8decode (skipn (Z.to_nat p) s) strict with
            | None => Trap                                 (* 'invalid UTF-8 code' *)
            | Some (code, adv) => if p =? i then Val code else nl_cp_loop k' s len i (p + adv) strict
@@ -113,4 +116,4 @@ Fixpoint nl_cp_loop (k : nat) (s : bytes) (len i p : Z) (strict : bool) : res Z 
 Definition nl_utf8codepoint (s : bytes) (i : Z) (strict : bool) : res Z :=
   let len := slen s in
   let i0 := nl_utf8relpos i len in
-  if (0 <=? i0) && (i0 <? len) then nl_cp_loop (Z.to_nat len) s len i0 0 strict else Trap.
+  if (0 <=? i0) && (i0 <? len) then nl_cp_loop (S (Z.to_nat len)) s len i0 0 strict else Trap.
